@@ -152,11 +152,32 @@ func c02Run(t *testing.T, run *Run, sc c02Scenario) {
 		arr, d1, d2 time.Duration
 		dep         int
 		slow        bool
+		stalled     bool
 	}
 	metas := map[string]meta{}
 	var cmds []*CmdRec
 	base := 100 * time.Millisecond
 	nreq := 0
+	// Requests stalled across successive redeploys: they resolve the service before redeploy i
+	// starts and reach the claim step only somewhere inside (or just after) redeploy j > i.
+	step := 3*span + 200*time.Millisecond
+	for i := 1; i < sc.Redeploys; i++ {
+		for j := i + 1; j <= sc.Redeploys; j++ {
+			bi, bj := base+time.Duration(i-1)*step, base+time.Duration(j-1)*step
+			for k := 0; k <= 8; k++ {
+				id := fmt.Sprintf("z%d-%d-%d", i, j, k)
+				arr := bi - 2*c02Delta + OffArrival
+				d1 := bj - arr + time.Duration(k)*span/6
+				metas[id] = meta{arr: arr - bj, d1: d1, dep: j, stalled: true}
+				w.SetReqDelay(id, "route.resolved", d1)
+				r := Req{ID: id, Host: "c02.example", Path: "/z"}
+				if cookie != "" {
+					r.Hdr = [][2]string{{"Cookie", cookie}}
+				}
+				w.GoReq(arr, r)
+			}
+		}
+	}
 	for dep := 1; dep <= sc.Redeploys; dep++ {
 		tag := "g"
 		if sc.Slot == "rollout" {
@@ -291,12 +312,27 @@ func c02Run(t *testing.T, run *Run, sc c02Scenario) {
 		}
 		m := metas[r.ID]
 		c := cmds[m.dep-1]
-		allowed := map[string]bool{}
-		for _, tname := range gens[m.dep-1] {
-			allowed[tname] = true
+		// A generation is live from the issue of the deploy that introduced it until the return of
+		// the deploy that replaced it; a request may be answered by any generation that is live at
+		// some instant between its claim and its completion.
+		tClaim := r.Sent
+		if tc, ok := reqHooks[r.ID]["lb.claimed"]; ok {
+			tClaim = tc
 		}
-		for _, tname := range gens[m.dep] {
-			allowed[tname] = true
+		allowed := map[string]bool{}
+		for k := range gens {
+			from, until := time.Duration(0), time.Duration(1<<62)
+			if k >= 1 {
+				from = cmds[k-1].Issue
+			}
+			if k < len(cmds) {
+				until = cmds[k].Ret
+			}
+			if from <= r.Done && until >= tClaim {
+				for _, tname := range gens[k] {
+					allowed[tname] = true
+				}
+			}
 		}
 		var sig string
 		if !m.slow {
@@ -317,6 +353,9 @@ func c02Run(t *testing.T, run *Run, sc c02Scenario) {
 			kind := "error-status"
 			if r.Status == 200 {
 				kind = "wrong-target"
+			}
+			if m.stalled {
+				kind += ":stalled-across-redeploys"
 			}
 			if r.Status < 0 {
 				kind = "no-response"
